@@ -258,6 +258,8 @@ def run(ctx):
                       "stream whose type read ended with %s leads to %s; expected: %s"
                       % (lab, sorted({(str(o[0])[:40], o[3], p.end) for p, o in hit}) or "no path", text), "", None, hit[0][0].describe() if hit else None)
 
+    # HTTP/2-reserved and unknown frame types are recognised whatever their payload (shared with C03)
+    shared.frame_type_table(ctx, "C04-type")
     # ------------------------------------------------------------------ C04-d who may claim the slots
     writers = {}
     for b in prog.bodies:
